@@ -27,6 +27,17 @@ def hcase(hook, link, mt):
     return Case("hook", toks, {"hook": hook, "link": link, "mt": mt})
 
 
+def hseq_case(hook, opens):
+    toks = [len(hook)]
+    for h in hook:
+        toks += text_tokens(h)
+    toks.append(len(opens))
+    for link, mt in opens:
+        toks += text_tokens(link)
+        toks += [0] if mt is None else [1] + text_tokens(mt[0]) + text_tokens(mt[1]) + text_tokens(mt[2])
+    return Case("hookseq", toks, {"hook": hook, "opens": [[l, list(m) if m else None] for l, m in opens]})
+
+
 class C20(Spec):
     pid = "C20"
     groups = ["vui"]
@@ -36,7 +47,8 @@ class C20(Spec):
             "drawn from the four placeholders (any position, repeated), look-alikes embedded in longer arguments ('--url=%url', "
             "'%urlx', ' %url'), plain arguments and empty strings; links with spaces, quotes, $(), backticks, leading dashes, "
             "newlines, text that itself is a placeholder, non-ASCII, 300 characters; six media types. The real ui.openExternally "
-            "runs the configured program (a recorder found through PATH) and the recorded argv/stdin must equal Hook.hook_command. "
+            "runs the configured program (a recorder found through PATH) and the recorded argv/stdin must equal Hook.hook_command; also "
+            "SEQUENCES of 2..4 opens with different links and media types in one session under one installed configuration. "
             "non-trivial = the hook has a placeholder argument or an embedded look-alike.")
     assumptions = ["the recorder reports argv[0] by base name (exec resolves it through PATH)",
                    "links and arguments contain no NUL byte (exec rejects those)",
@@ -77,11 +89,19 @@ class C20(Spec):
         cases.append(hcase(["%url", "%url", "%url"], "L", MTS[0]))
         cases.append(hcase(["vdump"], "only stdin", MTS[0]))
         cases += self.gen(rng, 300 if tier == "quick" else 8000)
+        # several opens in ONE session under ONE installed configuration: every open gets its own link and media type, and the
+        # configuration is the same afterwards
+        cases.append(hseq_case(["vdump", "%url", "%mimetype"], [("https://a.example/first.png", MTS[1]), ("https://b.example/$(id) %url.mp4", MTS[3]), ("third", MTS[0])]))
+        for _ in range(40 if tier == "quick" else 1500):
+            hook = ["vdump"] + [rng.choice(PLACE + ["-x", "--url=%url"]) for _ in range(rng.randint(1, 4))]
+            cases.append(hseq_case(hook, [(rng.choice(LINKS), rng.choice(MTS)) for _ in range(rng.randint(2, 4))]))
         b = Batch("c20", cases, env=env, timeout=900, correspondence="ui.openExternally + exec == Hook.hook_command")
         b.parallel = False
         runner.run_batches(self, scratch, binary, [b], report)
 
     def nontrivial(self, case, res):
+        if case.op == "hookseq":
+            return any("%" in h for h in case.meta["hook"][1:]) and len(case.meta["opens"]) >= 2
         return any("%" in h for h in case.meta["hook"][1:])
 
 
